@@ -51,7 +51,7 @@ def main():
         for m in muts:
             sync()
             apply(m["edits"])
-            env = dict(os.environ, VERIF_REPO=SCRATCH, VERIF_EVIDENCE_DIR=tmp, VERIF_REPORT_DIR=tmp)
+            env = dict(os.environ, VERIF_REPO=SCRATCH, VERIF_EVIDENCE_DIR=tmp + "/ev", VERIF_REPORT_DIR=tmp)
             for prop in ([m["property"]] + m.get("also", [])):
                 r = subprocess.run([os.path.join(VERIF, "check"), prop], env=env, capture_output=True, text=True)
                 out = r.stdout + r.stderr
